@@ -1,5 +1,6 @@
 """C11 — streaming subscribers materialize exactly the server's state."""
-import json, os, collections
+import json, os, collections, re, subprocess, time
+from concurrent.futures import ThreadPoolExecutor
 import vlib
 
 PROP = "C11"
@@ -94,25 +95,253 @@ def case_term(c):
 
 
 def shard_text(cases):
-    body = ";\n  ".join(case_term(c) for c in cases)
-    return ("From Verif Require Import Base.Prelude Stream.Model Run.C11.\nOpen Scope N_scope.\n"
-            "Definition cases : list case := [\n  %s\n].\n"
-            "Definition M := Eval vm_compute in mismatches cases.\nPrint M.\n"
-            "Definition D := Eval vm_compute in diags cases.\nPrint D.\n" % body)
+    """one Definition per case (a single list literal of a few hundred KB takes coqc three times as long)"""
+    defs = "\n".join("Definition c%d : case := %s." % (i, case_term(c)) for i, c in enumerate(cases))
+    return ("From Verif Require Import Base.Prelude Stream.Model Run.C11.\nOpen Scope N_scope.\n" + defs +
+            "\nDefinition cases : list case := [%s].\n" % "; ".join("c%d" % i for i in range(len(cases))) +
+            "Definition R := Eval vm_compute in reports cases.\nPrint R.\n")
 
 
-# ------------------------------------------------------------------ findings
+def run_shards(shards, jobs=8, timeout=900):
+    """-> list of (ok, [(diag, step_ok_breaks, events_ok_breaks)] per case, raw)"""
+    os.makedirs(vlib.GEN, exist_ok=True)
+    paths = []
+    for k, cs in enumerate(shards):
+        p = os.path.join(vlib.GEN, "cases_%s_%d.v" % (PROP, k))
+        open(p, "w").write(shard_text(cs))
+        paths.append(p)
+
+    def one(p):
+        try:
+            rc, out = vlib.sh(["coqc", "-Q", ".", "Verif", p], cwd=vlib.COQ, timeout=timeout)
+        except subprocess.TimeoutExpired:
+            return (False, None, "timeout")
+        if rc != 0:
+            return (False, None, out[-3000:])
+        flat = out.replace("\n", " ")
+        m = re.search(r"R\s*=\s*\[(.*?)\]\s*:\s*list", flat)
+        if not m:
+            return (False, None, out[-3000:])
+        trip = [tuple(int(x) for x in t) for t in re.findall(r"\(\s*(\d+)\s*,\s*(\d+)\s*,\s*(\d+)\s*\)", m.group(1))]
+        return (True, trip, "")
+
+    with ThreadPoolExecutor(max_workers=jobs) as ex:
+        return list(ex.map(one, paths))
+
+
+# ------------------------------------------------------------------ findings, shrinking
 
 def signature(f):
     return {"kind": f["kind"], "cause": f["cause"]}
 
 
+def replay_json(binp, workdir, steps, cache, drain=True):
+    os.makedirs(workdir, exist_ok=True)
+    p = os.path.join(workdir, "shrink.json")
+    json.dump({"steps": steps, "cache": cache, "drain": drain}, open(p, "w"))
+    rc, out = vlib.sh([binp, "-replay", p, "-json"], timeout=120)
+    if rc != 0:
+        return None
+    try:
+        return json.loads(out.strip().split("\n")[-1])
+    except ValueError:
+        return None
+
+
+INPUT_KEYS = ("op", "w", "r", "c", "ts", "tok", "ck")
+
+
+def inputs_only(steps):
+    return [{k: s[k] for k in INPUT_KEYS if k in s} for s in steps]
+
+
+def shrink(binp, workdir, case, fail, budget=150):
+    """greedy delta debugging over the step list: keep the same (kind, cause)"""
+    want = (fail["kind"], fail["cause"])
+    steps = inputs_only([s for s in case["steps"]])
+    # the drain is appended by the harness again: cut the schedule at the failing step when possible
+    def fails(st):
+        c = replay_json(binp, workdir, st, case["cache"])
+        return c is not None and any((f["kind"], f["cause"]) == want for f in c.get("fails") or [])
+    tries = 0
+    cut = steps[:fail["step"] + 1] if 0 <= fail["step"] < len(steps) else steps
+    if cut != steps and fails(cut):
+        steps = cut
+    tries += 1
+    i = len(steps) - 1
+    while i >= 0 and tries < budget:
+        cand = steps[:i] + steps[i + 1:]
+        tries += 1
+        if fails(cand):
+            steps = cand
+        i -= 1
+    return steps
+
+
 def run(ctx):
+    t0 = time.time()
     info, ok = vlib.proof_stage(ctx, PROP_FILE, ["Run/C11.v"])
     cov = dict(info)
-    cov["trusted_base"] = vlib.STD_TRUSTED + []
-    assumptions = []
+    cov["trusted_base"] = vlib.STD_TRUSTED + [
+        "environment hypotheses of the theorems (Stream.Model: step_ok, events_ok, restore_ok, gapfree_ok): Raft indexes grow strictly; a query's index covers every commit that touched its subject; the events of a commit describe its whole effect on the query results; each is checked on every generated step (Run.C11.breaks_from) and by the Go oracle, and each is shown necessary by a kernel-checked witness that the real code reproduces",
+        "the state store is modelled as keyed rows (topic, subject, instance) changed by the abstract events the harness reads from the real batch; catalog_events.go / config_entry_events.go are not modelled line by line: their output is compared with the change of CheckServiceNodes / CheckConnectServiceNodes / ConfigEntry results after every commit (oracle kind events-do-not-match-state-change, and the model's store against every query result)",
+        "values are interned canonical JSON of structs.CheckServiceNode / ServiceConfigEntry (empty fields dropped, checks sorted); projected away: ServiceConfigEntry.Kind (pbconfigentry.ConfigEntryToStructs leaves it empty; GetKind() is constant)",
+        "modelled, not verified: lock-free list memory ordering (atomic.Value), goroutine scheduling (replaced by explicit schedule steps; the thorough tier runs free goroutines under -race and compares final states), gRPC transport, ACL filtering of event payloads (all tokens are allowed to read), snapshot-handler errors, publishCh capacity (64) and the snapshot-cache TTL timer (an explicit Evict step)",
+        "hooks (build tag verif, add-only): stream.VerifPublishOne/VerifQueue/VerifQueued/VerifReady/VerifEvictSnapshot/VerifCloseTokens/VerifTopicBuffers, submatview.VerifMat (drives the real materializer.updateView/reset and the real handler state machine one event at a time)",
+    ]
+    assumptions = ["Raft indexes strictly increasing, index 1 never user data",
+                   "query index >= index of the last commit that changed the query's result (broken by the real connect query: known finding query-index-behind-content)",
+                   "events of a commit = change of the query results (broken by the real code for connect-native removal: known finding)",
+                   "restore with an empty publish queue and no surviving topic buffer (otherwise known findings restore-keeps-*)"]
     if not ok:
         cov.update({"evaluations": 0, "distinct_nontrivial": 0, "rule": "proof stage failed", "samples": []})
         return ctx.finish(cov, assumptions)
+
+    binp = vlib.go_build("stream")
+    out = os.path.join(ctx.workdir, "cases.jsonl")
+    n = 400 if ctx.tier == "quick" else 4000
+    cmd = [binp, "-seed", str(ctx.seed), "-tier", ctx.tier, "-n", str(n), "-corpus", os.path.join(vlib.VERIF, "corpus", PROP), "-out", out]
+    rc, o = vlib.sh(cmd, timeout=3000)
+    if rc != 0:
+        raise vlib.BuildError("harness run failed: " + o[-2000:])
+    cases = [json.loads(l) for l in open(out)]
+
+    # ---- model vs implementation, inside Coq
+    per = 100
+    shards = [cases[i:i + per] for i in range(0, len(cases), per)]
+    res = run_shards(shards)
+    mism, breaks_step, breaks_ev, break_cases = [], 0, 0, []
+    for cs, (okk, trip, raw) in zip(shards, res):
+        if not okk or len(trip) != len(cs):
+            ctx.violation({"kind": "case-file-failed", "log": raw}, found_input=False)
+            continue
+        for c, (d, a, b) in zip(cs, trip):
+            if d:
+                mism.append((c, d - 1))
+            breaks_step += a
+            breaks_ev += b
+            if a or b:
+                break_cases.append((c, a, b))
+
+    # ---- direct oracle on the implementation
+    known_counts = collections.Counter()
+    new_fail = []
+    for c in cases:
+        for f in c.get("fails") or []:
+            kf = vlib.match_known(PROP, signature(f))
+            if kf:
+                known_counts[f["kind"] + ":" + f["cause"]] += 1
+                ctx.known(kf, "%s cause=%s: %s" % (f["kind"], f["cause"], kf["what"]))
+            else:
+                new_fail.append((c, f))
+    # an assumption of the theorems broken by the implementation's environment must be one of the recorded ones
+    for c, a, b in break_cases:
+        causes = {f["cause"] for f in c.get("fails") or []}
+        if b and not causes:
+            new_fail.append((c, {"kind": "assumption-break", "cause": "events_ok", "step": -1, "c": -1,
+                                 "msg": "a commit changed a query result without an event"}))
+        if a:
+            kf = vlib.match_known(PROP, {"kind": "assumption-break", "cause": "query-index-behind-content"})
+            if kf:
+                known_counts["assumption-break:query-index-behind-content"] += 1
+                ctx.known(kf, "assumption-break cause=query-index-behind-content: " + kf["what"])
+
+    seen = set()
+    for c, f in new_fail:
+        key = (f["kind"], f["cause"])
+        if key in seen or len(seen) >= 5:
+            continue
+        seen.add(key)
+        steps = shrink(binp, ctx.workdir, c, f) if f.get("step", -1) >= 0 or True else inputs_only(c["steps"])
+        rep = replay_json(binp, ctx.workdir, steps, c["cache"])
+        ctx.violation({"kind": "oracle", "signature": signature(f), "reason": f["msg"], "failing_step": f.get("step"),
+                       "client": f.get("c"), "generator": c["gen"], "case_id": c["id"],
+                       "case": {"steps": steps, "cache": c["cache"], "drain": True},
+                       "shrunk_trace_failures": (rep or {}).get("fails"),
+                       "replay_cmd": "build/bin/stream -replay <this file>"})
+    if mism and not new_fail:
+        c, d = mism[0]
+        bad = c["steps"][d] if d < len(c["steps"]) else {"final_counters": [c["bufs"], c["snaps"], c["queue_n"]]}
+        ctx.violation({"kind": "correspondence", "theorem": "Run.C11.check (model step = implementation step)",
+                       "mismatching_cases": len(mism), "case_id": c["id"], "generator": c["gen"], "first_bad_step": d,
+                       "implementation_step": bad,
+                       "case": {"steps": inputs_only(c["steps"]), "cache": c["cache"], "drain": False}}, found_input=False)
+
+    # ---- thorough: free-running goroutines under -race, final equality only
+    free_cases, free_fail = 0, 0
+    if ctx.tier == "thorough":
+        try:
+            rbin = vlib.go_build("stream", race=True)
+            fout = os.path.join(ctx.workdir, "free.jsonl")
+            rc, o = vlib.sh([rbin, "-mode", "free", "-seed", str(ctx.seed), "-n", "150", "-out", fout], timeout=3000)
+            if rc != 0:
+                ctx.violation({"kind": "free-run-failed", "log": o[-3000:]}, found_input=("DATA RACE" in o))
+            else:
+                for l in open(fout):
+                    fc = json.loads(l)
+                    free_cases += 1
+                    if fc.get("oracle"):
+                        free_fail += 1
+                        if free_fail <= 2:
+                            ctx.violation({"kind": "oracle-free-running", "reason": fc["fails"][0]["msg"], "case": fc})
+        except vlib.BuildError as e:
+            ctx.notes.append("race build unavailable: " + str(e)[-300:])
+            cov["race_build"] = "unavailable: " + str(e)[-200:]
+
+    # ---- evidence
+    ops = collections.Counter()
+    outs = collections.Counter()
+    writes = collections.Counter()
+    gens = collections.Counter(c["gen"].split(":")[0] for c in cases)
+    paths = collections.Counter()
+    nsteps = 0
+    sigs = set()
+    for c in cases:
+        first = {}
+        for s in c["steps"]:
+            nsteps += 1
+            ops[s["op"]] += 1
+            if s["op"] == "commit":
+                writes[s["w"]["k"] + ("" if s.get("queued") else "(rejected)")] += 1
+            if s["op"] == "sub":
+                first[s["c"]] = s
+                if s.get("err"):
+                    paths["error(unsupported wildcard)"] += 1
+                elif s.get("qlen", 0) > 0:
+                    paths["subscribe with non-empty queue"] += 1
+            if s["op"] == "next":
+                outs[s.get("out")] += 1
+                sb = first.pop(s["c"], None)
+                if sb is not None and not sb.get("err") and s.get("out") in ("ev", "eos", "nstf", "block"):
+                    if sb.get("reqidx", 0) == 0:
+                        paths["fresh (index 0): snapshot"] += 1
+                    elif s.get("out") == "nstf":
+                        paths["stale index: NewSnapshotToFollow + snapshot"] += 1
+                    else:
+                        paths["resumed at index"] += 1
+        sigs.add(json.dumps(inputs_only(c["steps"]), sort_keys=True))
+    sample = []
+    for c in cases[:2] + cases[-1:]:
+        sample.append({"gen": c["gen"], "cache": c["cache"], "oracle": c["oracle"],
+                       "steps": [{k: v for k, v in s.items() if k not in ("q",)} for s in c["steps"][:14]]})
+    cov.update({
+        "evaluations": len(cases),
+        "distinct_nontrivial": len(sigs),
+        "rule": "schedules of 10-32 steps (+ drain to quiescence) over 2 nodes, 6 service ids (plain, connect-native, connect-proxy, renamed), node and service checks, service-defaults config entries, ACL tokens/policies/role, KV noise; 8 subjects (health web/api/db, connect web/api, service-defaults web/api/wildcard); flavours mixed, gap (bursts of commits then a subscription), eager (publish after every commit), restore, restorebuf (several subscribers share a subject across a restore), acl, malformed (rejected writes, unknown clients, unsupported wildcard) and the corpus of minimised findings; distinct_nontrivial = distinct input schedules, every one executed on the real store+publisher+materializer, evaluated by the model in Coq step by step (every Next outcome, index, whole view; every query result after every commit) and by the direct oracle",
+        "traces_validated_against_impl": len(cases) - len(mism),
+        "steps_executed": nsteps,
+        "model_mismatches": len(mism),
+        "assumption_breaks_observed": {"step_ok": breaks_step, "events_ok": breaks_ev},
+        "oracle_failures_known": dict(known_counts),
+        "oracle_failures_unknown": len(new_fail),
+        "generator_flavours": dict(gens),
+        "op_mix": dict(ops),
+        "write_mix": dict(writes),
+        "next_outcomes": dict(outs),
+        "subscribe_paths": dict(paths),
+        "free_running_cases": free_cases,
+        "free_running_failures": free_fail,
+        "samples": sample,
+        "exhaustive": False,
+    })
     return ctx.finish(cov, assumptions)
